@@ -550,6 +550,14 @@ let cols_line l =
   let io = if String.trim l = "fail" then None else Some (n_of_int (int_of_string (String.trim l))) in
   (match get_cols io with None -> "none" | Some c -> Printf.sprintf "some %d" (int_of_n c)) ^ Printf.sprintf " use %d" (int_of_n (max_cols io))
 
+(* hex of a name -> Path::new(name): has_root, components, and the same for its parent *)
+let pathparts_line l =
+  let show (p : lpath) = Printf.sprintf "%d %s" (if p.lp_rooted then 1 else 0) (hex (String.concat "/" (List.map string_of_bytes p.lp_comps))) in
+  let p = path_new (bytes_of_hex l) in
+  match lp_parent p with
+  | Some q -> show p ^ " | " ^ show q
+  | None -> show p ^ " | none"
+
 let hash_line l =
   (* hex of the manifest stream -> siphash *)
   "ok " ^ hexnum_of_n (siphash13 (bytes_of_hex l))
@@ -576,7 +584,7 @@ let suites : (string * (string -> string)) list =
     ("showincludes", showinc_line true); ("showincludes_pinned", showinc_line false);
     ("lastline", lastline_line); ("depfiledeps", depfiledeps_line);
     ("taskmsg", taskmsg_line true); ("taskmsg_pinned", taskmsg_line false);
-    ("truncate", truncate_line); ("bar", bar_line); ("fancy", fancy_line); ("lossy", lossy_line); ("task", task_line); ("dumb", dumb_line); ("cli", cli_line); ("fs", fs_line); ("cols", cols_line); ("status", status_line);
+    ("truncate", truncate_line); ("bar", bar_line); ("fancy", fancy_line); ("lossy", lossy_line); ("task", task_line); ("dumb", dumb_line); ("cli", cli_line); ("fs", fs_line); ("cols", cols_line); ("pathparts", pathparts_line); ("status", status_line);
     ("inv", inv_line); ("select", select_line); ("build", build_line);
     ("dbopen", dbopen_line); ("dbwrite", dbwrite_line);
     ("load", load_line); ("world", world_line); ("explain", explain_line); ("siphash", hash_line); ("dedup", dedup_line true); ("dedup_pinned", dedup_line false) ]
